@@ -7,7 +7,7 @@ patch="$1"; id="$2"; tier="${3:-quick}"
 wt=$(mktemp -d /tmp/seedwt.XXXXXX)
 rmdir "$wt"
 git -C /repo worktree add -q --detach "$wt" HEAD || exit 3
-if ! git -C "$wt" apply "$patch"; then
+if ! git -C "$wt" apply "$patch" 2>/dev/null && ! git -C "$wt" apply --3way "$patch" 2>/dev/null; then
   echo "SEEDTEST: patch does not apply to current /repo HEAD"; git -C /repo worktree remove --force "$wt"; exit 4
 fi
 ( cd "$(dirname "$0")/.." && VERIF_REPO="$wt" ./check "$id" "$tier" )
